@@ -136,7 +136,11 @@ func c20Client(r *vf.Run, t *testing.T, id string, rng *rand.Rand) {
 	hdr := append([]F{{Name: ":status", Value: fmt.Sprint(v.Status)}}, v.RespFields...)
 	trl := append([]F{}, v.RespTrail...)
 	var rules []string
-	if rng.Intn(5) != 0 {
+	if rng.Intn(14) == 0 {
+		// a header block of zero octets: no :status, no field at all (on its own, or right after an interim response)
+		hdr = nil
+		rules = append(rules, "empty-header-block")
+	} else if rng.Intn(5) != 0 {
 		for k := 1 + rng.Intn(2); k > 0; k-- {
 			m := c20RespMutations[rng.Intn(len(c20RespMutations))]
 			if m.Apply(rng, &hdr, &trl) {
